@@ -259,23 +259,23 @@ def k3_append_hook(c, st):
 
 
 def k3_contracts():
-    out = []
-    for case in ("upper", "lower", "preserve"):
-        out.append(REG.add(Contract(
-            "reader.parse_header_items_section", case="mnemonic_case=" + case,
-            params={"file_obj": FILE, "line_nos": TUPLE(INT, INT), "version": OBJ, "ignore_header_errors": BOOL,
-                    "mnemonic_case": CONST(case), "ignore_comments": CONST(("#",))},
-            requires=k3_pre, ensures=k3_post,
-            raises=[("LASHeaderError", k3_raises)],
-            modifies={"$cursor": None},
-            loops={0: k3_inv}, loop_anchor={0: "enumerate(file_obj)"},
-            loop_hints={0: lambda c: [(c.g("ax:hrank-step"), [c.v("line_no").t + 1])]},
-            ghost_init=k3_init, hooks={"section.append(item)": k3_append_hook},
-            returns=LI.SI, reveal=("io",),
-            use={"las_items.SectionItems.append": "shape"},
-            loop_fields=K3_LOOP_FIELDS,
-            properties=("C05", "C09", "C19"))))
-    return out
+    return [REG.add(Contract(
+        "reader.parse_header_items_section",
+        params={"file_obj": FILE, "line_nos": TUPLE(INT, INT), "version": OBJ, "ignore_header_errors": BOOL,
+                "mnemonic_case": STR, "ignore_comments": CONST(("#",))},
+        requires=lambda c: k3_pre(c) + [("mnemonic_case-is-one-of-the-three", z3.Or(
+            c.a["mnemonic_case"].t == z3.StringVal("upper"), c.a["mnemonic_case"].t == z3.StringVal("lower"),
+            c.a["mnemonic_case"].t == z3.StringVal("preserve")))],
+        ensures=k3_post,
+        raises=[("LASHeaderError", k3_raises)],
+        modifies={"$cursor": None},
+        loops={0: k3_inv}, loop_anchor={0: "enumerate(file_obj)"},
+        loop_hints={0: lambda c: [(c.g("ax:hrank-step"), [c.v("line_no").t + 1])]},
+        ghost_init=k3_init, hooks={"section.append(item)": k3_append_hook},
+        returns=LI.SI, reveal=("io",),
+        use={"las_items.SectionItems.append": "shape"},
+        loop_fields=K3_LOOP_FIELDS,
+        properties=("C05", "C09", "C19")))]
 
 
 K3 = k3_contracts()
